@@ -141,7 +141,8 @@ MutateChecks(cfg, pre, post, ln, c, want, req, o) ==
       evs   == ln.evs
       ok    == ln.out = "ok"
       fits  == req <= x.cap
-      big   == req > x.max
+      \* the limit is max_size(), or the inline capacity where that is larger (C02 words it the same way)
+      big   == req > Max(x.max, NOf(cfg, c))
       r     == RegionOf(c, x)
   IN
   { Chk("C01", "values",        ok, y.e = want),
@@ -161,7 +162,7 @@ MutateChecks(cfg, pre, post, ln, c, want, req, o) ==
     Chk("C10", "fits=>prefix-untouched", ok /\ fits /\ o.c10 /\ cfg.tracked /\ ~ln.evtrunc,
                                 PrefixUntouched(evs, r, o.pos)),
     Chk("C04", "fits=>no-allocate", ok /\ fits /\ o.noalloc, Len(Allocs(evs)) = 0),
-    Chk("C14", "geometric-growth", ok /\ ~fits /\ o.c14, GrowOK(x.cap, y.cap, req, x.max)),
+    Chk("C14", "geometric-growth", ok /\ ~fits /\ o.c14, GrowOK(x.cap, y.cap, req, Max(x.max, NOf(cfg, c)))),
     Chk("C10", "grows=>capacity-suffices", ok /\ ~fits, y.cap >= req),
     Chk("C10", "known-count=>one-reallocation", ok /\ ~fits /\ o.known /\ ~ln.evtrunc,
                                 /\ Len(Allocs(evs)) <= 1
@@ -318,7 +319,7 @@ CtorCommon(cfg, post, ln, c, want, al) ==
       n  == NOf(cfg, c)
       ok == ln.out = "ok"
       need == Len(want)
-      big  == need > cfg.max
+      big  == need > Max(cfg.max, n)
   IN
   { Chk("C01", "ctor:values",       ok, y.p /\ y.e = El(want)),
     Chk("C01", "ctor:throws-only-as-vector", TRUE,
